@@ -702,7 +702,7 @@ fn exec_op(ctx: &mut Ctx, op: &Value, ev: &mut Map<String, Value>) {
                 ev.insert("obs".into(), Value::Array(obs.into_values().collect()));
             }
         }
-        "walk" | "filter" | "find" | "lookups" | "walktypes" | "walkmethods" | "walkargs" | "key" | "roundtrip" => {
+        "walk" | "filter" | "find" | "finds" | "filters" | "lookups" | "walktypes" | "walkmethods" | "walkargs" | "key" | "roundtrip" => {
             let (idn, idp) = idpath(ctx, op);
             let stage = op["stage"].as_str().unwrap_or("validated");
             let res = match get_stage(ctx, i, stage) {
@@ -728,6 +728,7 @@ fn exec_op(ctx: &mut Ctx, op: &Value, ev: &mut Map<String, Value>) {
                 }
             };
             let filt = filter_of(&op["filter"]);
+            ev.insert("nodes".into(), Value::Array(pr.nodes.clone()));
             match name {
                 "walk" => {
                     let mut out = Vec::new();
@@ -749,6 +750,30 @@ fn exec_op(ctx: &mut Ctx, op: &Value, ev: &mut Map<String, Value>) {
                         pred_eval(&op["pred"], k, s)
                     });
                     ev.insert("found".into(), match v { Some(s) => json!([sym_path(&s, &pr)]), None => json!([]) });
+                }
+                "finds" => {
+                    let mut out = Vec::new();
+                    for pd in op["preds"].as_array().cloned().unwrap_or_default() {
+                        let mut k = 0usize;
+                        let v = traverse::find_symbol(astv, filt, |s| {
+                            k += 1;
+                            pred_eval(&pd, k, s)
+                        });
+                        out.push(match v { Some(s) => json!([sym_path(&s, &pr)]), None => json!([]) });
+                    }
+                    ev.insert("found".into(), Value::Array(out));
+                }
+                "filters" => {
+                    let mut out = Vec::new();
+                    for pd in op["preds"].as_array().cloned().unwrap_or_default() {
+                        let mut k = 0usize;
+                        let v = traverse::filter_symbols(astv, filt, |s| {
+                            k += 1;
+                            pred_eval(&pd, k, s)
+                        });
+                        out.push(Value::Array(v.iter().map(|s| sym_path(s, &pr)).collect()));
+                    }
+                    ev.insert("paths".into(), Value::Array(out));
                 }
                 "lookups" => {
                     let mut out = Vec::new();
@@ -877,7 +902,7 @@ fn main() {
             ev.insert("ev".into(), json!(op["op"]));
             ev.insert("sid".into(), sid.clone());
             ev.insert("n".into(), json!(n));
-            for k in ["i", "id", "path", "mode", "filter", "pred", "positions", "stage", "m", "cid", "thread", "proc"] {
+            for k in ["i", "id", "path", "mode", "filter", "pred", "preds", "positions", "stage", "m", "cid", "thread", "proc"] {
                 if !op[k].is_null() {
                     ev.insert(k.into(), op[k].clone());
                 }
